@@ -100,8 +100,17 @@ structure Cfg where
 def Cfg.ignorePats (c : Cfg) : List Pat := (c.ignore ++ Generated.defaultIgnore).map parsePat
 /-- `pytask_ignore_collect`. -/
 def Cfg.ignored (c : Cfg) (p : Path) : Bool := c.ignorePats.any (·.matches p)
-/-- `any(path.match(pattern) for pattern in session.config["task_files"])`. -/
-def Cfg.isTaskFile (c : Cfg) (p : Path) : Bool := (c.taskFiles.map parsePat).any (·.matches p)
+/-- the test one `pytask_collect_file` implementation applies to a pattern (read from the source: `path.match`). -/
+def matchBy : Generated.Col.TFPred → Pat → Path → Bool
+  | .pathMatch, pat, p => pat.matches p
+
+/-- `any(path.match(pattern) for pattern in session.config["task_files"])` as one implementation evaluates it. -/
+def Cfg.isTaskFileFor (c : Cfg) (pred : Generated.Col.TFPred) (p : Path) : Bool :=
+  (c.taskFiles.map parsePat).any (fun pat => matchBy pred pat p)
+
+/-- a path is handled as a task module when every `pytask_collect_file` implementation (collect.py imports it, task.py
+picks up its `@task` functions) accepts it. -/
+def Cfg.isTaskFile (c : Cfg) (p : Path) : Bool := Generated.Col.taskFilesPredicates.all (fun pred => c.isTaskFileFor pred p)
 
 /-! ## 2. File system and the seen-set walk -/
 
